@@ -172,4 +172,40 @@ package validator
 //@   modifies c.list, c.list[*]
 //@   ensures normal ==> len(c.list) == old(len(c.list)) + 1 && vFor(c.list[old(len(c.list))], node, c.parent)
 //@   ensures normal ==> (forall j :: 0 <= j && j < old(len(c.list)) ==> c.list[j] == old(c.list[j]))
+//@   ensures (normal || panics) ==> (c.list.$arr == old(c.list.$arr) || c.list.$arr > old(alloc))
+//@   ensures normal ==> c.list.$arr != 0
 //@   ensures panics ==> errWF(pv)
+
+// ---- C03/C09: expansion of a position into its candidate validators ----
+// The node handed in (a node of the schema or the root of a named type) is
+// ASSUMED well-formed, as in the loader (tree/graph ownership is not modelled).
+
+// C03: "plus null when nullable:true" at EVERY level of the expansion; C01: one
+// validator of the node's class when the node names no types; C09: the set of
+// type names already expanded (the cycle guard) is never recreated once it exists
+//@ func (*validatorListConstructor).buildList(node)
+//@   props C01 C03 C09
+//@   requires c != nil && ((c.addedTypeNames == nil) == (c.list.$arr == 0))
+//@   assumes isNode(node) && consReady(node) && rulesTyped(node) && reqKeysReady(node) && allocated(consOf(node)) && allocated(consOf(node).data)
+//@   maypanic
+//@   modifies c.list, c.list[*], c.addedTypeNames, c.addedTypeNames[*]
+//@   ensures normal ==> len(c.list) >= old(len(c.list)) && c.list.$arr != 0 && (forall j :: 0 <= j && j < old(len(c.list)) ==> c.list[j] == old(c.list[j]))
+//@   ensures normal && !hasRule(node, constraint.TypesListConstraintType) ==> len(c.list) == old(len(c.list)) + 1 && vFor(c.list[old(len(c.list))], node, c.parent)
+//@   ensures normal && hasRule(node, constraint.TypesListConstraintType) && hasRule(node, constraint.NullableConstraintType) ==> len(c.list) > old(len(c.list))
+//@           && typeis(c.list[len(c.list) - 1], *literalValidator) && unbox(c.list[len(c.list) - 1], *literalValidator).node_ == node && unbox(c.list[len(c.list) - 1], *literalValidator).parent_ == c.parent
+//@   ensures normal && old(c.addedTypeNames) != nil ==> c.addedTypeNames == old(c.addedTypeNames)
+//@   ensures normal ==> (c.addedTypeNames != nil ==> c.list.$arr != 0)
+//@   ensures (normal || panics) ==> (c.list.$arr == old(c.list.$arr) || c.list.$arr > old(alloc)) && (c.addedTypeNames == old(c.addedTypeNames) || c.addedTypeNames > old(alloc))
+
+//@ func (*validatorListConstructor).appendTypeValidators(names)
+//@   props C03 C09
+//@   requires c != nil && ((c.addedTypeNames == nil) == (c.list.$arr == 0))
+//@   assumes forall k string :: dom(c.rootSchema.types, k) ==> c.rootSchema.types[k].schema != nil
+//@   maypanic
+//@   modifies c.list, c.list[*], c.addedTypeNames, c.addedTypeNames[*]
+//@   ensures normal ==> len(c.list) >= old(len(c.list)) && c.list.$arr != 0 && c.addedTypeNames != nil && (forall j :: 0 <= j && j < old(len(c.list)) ==> c.list[j] == old(c.list[j]))
+//@   ensures normal && old(c.addedTypeNames) != nil ==> c.addedTypeNames == old(c.addedTypeNames)
+//@   ensures (normal || panics) ==> (c.list.$arr == old(c.list.$arr) || c.list.$arr > old(alloc)) && (c.addedTypeNames == old(c.addedTypeNames) || c.addedTypeNames > old(alloc))
+//@   loop 0 invariant (c.list.$arr == old(c.list.$arr) || c.list.$arr > old(alloc)) && (c.addedTypeNames == old(c.addedTypeNames) || c.addedTypeNames > old(alloc))
+//@   loop 0 invariant c.list.$arr != 0 && c.addedTypeNames != nil && len(c.list) >= old(len(c.list)) && (forall j :: 0 <= j && j < old(len(c.list)) ==> c.list[j] == old(c.list[j]))
+//@   loop 0 invariant old(c.addedTypeNames) != nil ==> c.addedTypeNames == old(c.addedTypeNames)
